@@ -254,7 +254,7 @@ class Life:
             c0 = counters()
             f, k = ufl.Coefficient(V), ufl.Constant(m)
             u, v = ufl.TrialFunction(V), ufl.TestFunction(V)
-            a = k * f * ufl.inner(ufl.grad(u), ufl.grad(v)) * ufl.dx + f * u * v * ufl.ds
+            a = k * f * ufl.inner(ufl.grad(u), ufl.grad(v)) * ufl.dx + f * ufl.inner(u, v) * ufl.ds
             ffcx.compiler.compile_ufl_objects([a], options=ffcx.options.get_options({}), namespace="junk")
             made = minus(counters(), c0)
         else:
@@ -301,7 +301,7 @@ class Life:
     def name(self, ev):
         import ffcx.codegeneration.jit as jit
 
-        from . import corpus
+        from . import corpus, corpus_meta
 
         class Stop(Exception):
             pass
@@ -334,8 +334,10 @@ class Life:
         Cffi.FFI = FFI
         saved = (jit.get_cached_module, jit.cffi)
         jit.get_cached_module, jit.cffi = get_cached_module, Cffi
-        out = {"reqkey": json.dumps(recipe, sort_keys=True), "kind": kind, "hasclass": False, "klass": "",
-               "defs": [], "idc": []}
+        # the request = what is compiled (recipe) with which options (those of the call merged over the option files)
+        eff = corpus_meta.effective_options(self.job.get("conf", "none"), recipe["opt"])
+        out = {"reqkey": json.dumps([{k: v for k, v in recipe.items() if k != "opt"}, eff], sort_keys=True),
+               "kind": kind, "hasclass": False, "klass": "", "defs": [], "idc": []}
         try:
             fn = jit.compile_forms if kind == "forms" else jit.compile_expressions
             try:
@@ -378,7 +380,7 @@ class Life:
         for ev in self.job["events"]:
             act = ev["act"]
             r = dict(ev)
-            r["proc"], r["seed"] = self.job["pid"], self.job["seed"]
+            r["proc"], r["seed"], r["conf"] = self.job["pid"], self.job["seed"], self.job.get("conf", "none")
             if act == "CreateJunk":
                 r.update(self.junk(ev))
             elif act == "Generate":
@@ -392,7 +394,32 @@ class Life:
         return res
 
 
+def install_option_files(job) -> None:
+    """Give the process the option files of its Spawn: a private working directory (with or without
+    ffcx_options.json) and a private XDG_CONFIG_HOME (with or without ffcx/ffcx_options.json).  Must
+    happen before the first ffcx.options.get_options() of the process (the files are read once)."""
+    from . import corpus_meta as meta
+
+    home = Path(tempfile.mkdtemp(prefix="conf-", dir=job.get("tmp")))
+    (home / "cwd").mkdir()
+    (home / "xdg" / "ffcx").mkdir(parents=True)
+    for where, opts in meta.CONF[job.get("conf", "none")]:
+        f = home / "cwd" / "ffcx_options.json" if where == "pwd" else home / "xdg" / "ffcx" / "ffcx_options.json"
+        f.write_text(json.dumps(opts))
+    os.environ["XDG_CONFIG_HOME"] = str(home / "xdg")
+    os.chdir(home / "cwd")
+    import ffcx.options
+
+    info = getattr(getattr(ffcx.options, "_load_options", None), "cache_info", None)
+    if info is not None and info().currsize:
+        raise RuntimeError("option files were already read in this process")
+
+
 def live(job) -> dict:
+    try:
+        install_option_files(job)
+    except Exception:
+        return {"pid": job["pid"], "error": traceback.format_exc()}
     life = Life(job)
     try:
         return {"pid": job["pid"], "events": life.run()}
